@@ -84,7 +84,7 @@ def mut_stale_row(tr, k):
 PLAN = dict(
     quick=dict(model=["EVMSyncC06.cfg"], gen="EVMSyncGenC06.cfg", edges=1000, walks=[("EVMSyncSimC06.cfg", 400)], l1=300,
                probes=[("EVMSyncF7probe.cfg", "Faithful"), ("EVMSyncF6probe.cfg", "RewindLow")]),
-    thorough=dict(model=["EVMSyncC06.cfg", "EVMSyncC06T.cfg"], gen="EVMSyncGenC06.cfg", edges=10000,
+    thorough=dict(model=["EVMSyncC06T.cfg", "EVMSyncC06T4.cfg"], gen="EVMSyncGenC06.cfg", edges=10000,
                   walks=[("EVMSyncSimC06.cfg", 4000), ("EVMSyncSimC06L.cfg", 1000)], l1=2500, model_timeout=3000, model_workers=12,
                   probes=[("EVMSyncF7probe.cfg", "Faithful"), ("EVMSyncF6probe.cfg", "RewindLow")]),
     invariants=["Ordered", "Faithful", "NoSkip", "Converged", "RewindLow"],
